@@ -19,9 +19,9 @@ from .env import VERIF, REPO
 M = []
 
 
-def mut(mid, prop, path, old, new, count=1):
+def mut(mid, prop, path, old, new, count=1, known_miss=False):
     M.append({'id': mid, 'property': prop, 'file': path, 'old': old,
-              'new': new, 'count': count})
+              'new': new, 'count': count, 'known_miss': known_miss})
 
 
 # ---- C11 -----------------------------------------------------------------
@@ -59,6 +59,51 @@ mut('c11-proxgrad-unint-tmp', 'C11',
     'odl/solvers/nonsmooth/proximal_gradient_solvers.py',
     "        tmp.lincomb(1, x, -gamma, g_grad(x))\n\n        # Update x^{k+1}",
     "        tmp.lincomb(1, x, -gamma, g_grad(x)) if k else tmp.lincomb(1e-30, tmp, 1, x - gamma * g_grad(x))\n\n        # Update x^{k+1}")
+
+
+# ---- C12 -----------------------------------------------------------------
+mut('c12-landweber-sign', 'C12', 'odl/solvers/iterative/iterative.py',
+    "        x.lincomb(1, x, -omega, tmp_dom)\n\n        if projection is not None:\n            projection(x)\n\n        if callback is not None:\n            callback(x)\n\n\ndef conjugate_gradient(",
+    "        x.lincomb(1, x, omega, tmp_dom)\n\n        if projection is not None:\n            projection(x)\n\n        if callback is not None:\n            callback(x)\n\n\ndef conjugate_gradient(")
+mut('c12-cg-beta-inverted', 'C12', 'odl/solvers/iterative/iterative.py',
+    "        beta = sqnorm_r_new / sqnorm_r_old\n",
+    "        beta = sqnorm_r_old / sqnorm_r_new if sqnorm_r_new else 0.0\n")
+mut('c12-cgn-sign', 'C12', 'odl/solvers/iterative/iterative.py',
+    "        d.lincomb(1, d, -a, q)              # d = d - a*Ap\n",
+    "        d.lincomb(1, d, a, q)              # d = d - a*Ap\n")
+mut('c12-kaczmarz-omega0', 'C12', 'odl/solvers/iterative/iterative.py',
+    "            x.lincomb(1, x, -omega[i], tmp_dom)\n",
+    "            x.lincomb(1, x, -omega[0], tmp_dom)\n")
+mut('c12-armijo-flipped', 'C12', 'odl/solvers/util/steplen.py',
+    "            if (fval <= fx - expected_decrease):",
+    "            if (fval >= fx - expected_decrease) or num_iter > 3:")
+mut('c12-power-nosqrt', 'C12', 'odl/operator/oputils.py',
+    "        if use_normal:\n            return np.sqrt(x_norm)\n",
+    "        if use_normal:\n            return x_norm\n")
+mut('c12-pdhg-dual-uses-x', 'C12',
+    'odl/solvers/nonsmooth/primal_dual_hybrid_gradient.py',
+    "        L(x_relax, out=dual_tmp)\n", "        L(x, out=dual_tmp)\n")
+mut('c12-proxgrad-plus-gamma', 'C12',
+    'odl/solvers/nonsmooth/proximal_gradient_solvers.py',
+    "        tmp.lincomb(1, x, -gamma, g_grad(x))\n",
+    "        tmp.lincomb(1, x, gamma, g_grad(x))\n")
+mut('c12-dr-sigma-half-dropped', 'C12',
+    'odl/solvers/nonsmooth/douglas_rachford.py',
+    "            p2[i].lincomb(1, v[i], sigma[i] / 2, p2[i])\n",
+    "            p2[i].lincomb(1, v[i], sigma[i], p2[i])\n")
+mut('c12-admm-tau-over-sigma', 'C12', 'odl/solvers/nonsmooth/admm.py',
+    "        x.lincomb(1, x, -tau / sigma, tmp_dom)\n",
+    "        x.lincomb(1, x, -tau * sigma, tmp_dom)\n")
+mut('c12-accel-alpha', 'C12',
+    'odl/solvers/nonsmooth/proximal_gradient_solvers.py',
+    "        alpha = (t_old - 1) / t\n", "        alpha = t_old / t\n",
+    known_miss=True)   # a different but still convergent momentum rule: the
+#                        property as stated (converges to a KKT point, solution
+#                        is a fixed point) still holds -- documented limit
+mut('c12-pdhg-theta-sign', 'C12',
+    'odl/solvers/nonsmooth/primal_dual_hybrid_gradient.py',
+    "        x_relax.lincomb(1 + theta, x, -theta, x_old)\n",
+    "        x_relax.lincomb(1 - theta, x, theta, x_old)\n")
 
 
 def _apply(scratch, m):
